@@ -334,6 +334,9 @@ func (x *Exec) unknownCall(cfg *Config, f *Frame, tg target, args []Val, dest ss
 	}
 	res := x.resultVal(cfg, "call!"+sanitize(tg.name), tg.sig)
 	x.recordCallResults(cfg, tg, res)
+	// time passes while the callback runs: contexts may expire (the callback
+	// itself may hold a cancel function)
+	x.interfere(cfg)
 	x.finishCall(f, dest, res, isDefer)
 	return forks, false
 }
@@ -790,7 +793,10 @@ func (x *Exec) callOrderChecks(cfg *Config, tg target, pos token.Pos) {
 			if err != nil {
 				return false
 			}
-			sv := x.spec(env, e)
+			sv, isParam := x.paramOrFreeVar(cfg, name)
+			if !isParam {
+				sv = x.spec(env, e)
+			}
 			if sv.Ty != nil && tg.vtype != nil && !types.Identical(sv.Ty, tg.vtype) {
 				return false // a value of another type: not the function the option names
 			}
@@ -1003,4 +1009,33 @@ func (x *Exec) scanStructFields(cfg *Config, styp types.Type, ref Term, pos toke
 		_, arr, _ := x.fieldArr(cfg.st, styp, i)
 		x.escapeScan(cfg, TV{T: Select(arr, ref)}, ft, pos, depth+1, seen)
 	}
+}
+
+// paramOrFreeVar: the value of a parameter or captured variable of the function
+// under verification, by name - even where a local of the same name shadows it
+// (contracts speak about the function's interface).
+func (x *Exec) paramOrFreeVar(cfg *Config, name string) (SpecVal, bool) {
+	if len(cfg.frames) == 0 {
+		return SpecVal{}, false
+	}
+	f := cfg.frames[0]
+	for _, p := range x.fn.Params {
+		if p.Name() == name {
+			if v, ok := f.regs[p]; ok {
+				return x.valToSpec(cfg.st, v, p.Type()), true
+			}
+		}
+	}
+	for _, fv := range x.fn.FreeVars {
+		if fv.Name() == name {
+			if v, ok := f.regs[fv]; ok {
+				el := derefType(fv.Type())
+				if a, isAddr := v.(AddrV); isAddr && el != nil {
+					arr := x.heapGet(cfg.st, a.Arr, SArr(SInt, x.sortOf(el)))
+					return SpecVal{T: Select(arr, a.Base), Ty: el}, true
+				}
+			}
+		}
+	}
+	return SpecVal{}, false
 }
